@@ -18,6 +18,8 @@
 package c03
 
 import (
+	"bytes"
+	"context"
 	"encoding/hex"
 	"encoding/json"
 	"fmt"
@@ -112,6 +114,8 @@ var drivenKinds = []string{
 	"scheduler.MsgCreateJob", "scheduler.MsgCreateJob",
 	"tokenfactory.MsgCreateDenom", "tokenfactory.MsgMint", "tokenfactory.MsgBurn", "tokenfactory.MsgChangeAdmin",
 	"paloma.MsgAddLightNodeClientLicense",
+	"consensus.MsgAddMessagesSignatures", "consensus.MsgAddMessageGasEstimates", "consensus.MsgAddEvidence",
+	"consensus.MsgSetPublicAccessData", "consensus.MsgSetErrorData", "valset.MsgAddExternalChainInfoForValidator",
 }
 
 func (e *env) build(t *testing.T, s scen) (*built, error) {
@@ -226,6 +230,120 @@ func (e *env) build(t *testing.T, s scen) (*built, error) {
 		tx, err := e.skywayK.GetUnbatchedTxById(e.ctx, s.TxID)
 		b.biz = err == nil && tx != nil && s.Creator >= 0 && tx.Sender.Equals(e.actors[s.Creator])
 		b.run = func(ctx sdk.Context) error { _, err := e.skyway.CancelSendToRemote(ctx, m); return err }
+	case "consensus.MsgAddMessagesSignatures", "consensus.MsgAddMessageGasEstimates", "consensus.MsgAddEvidence",
+		"consensus.MsgSetPublicAccessData", "consensus.MsgSetErrorData":
+		// s.TxID: the queued message's id as submitted (one of the two waiting, or none)
+		s.TxID = e.msgID(s.TxID)
+		var rec consensustypes.QueuedSignedMessageI
+		for _, qm := range e.queuedMessages(e.ctx) {
+			if qm.GetId() == s.TxID {
+				rec = qm
+			}
+		}
+		exists := rec != nil
+		switch s.Kind {
+		case "consensus.MsgAddMessagesSignatures":
+			// whose registered external-chain address is claimed, whose key signs
+			ca := nm("SignedByAddress")
+			addrS := "0x0000000000000000000000000000000000000001"
+			if isVal(ca) {
+				addrS = keeper.EthAddrs[ca].String()
+			}
+			var sig []byte
+			if isVal(s.SigBy) {
+				sig = e.signFor(s.TxID, s.SigBy)
+			}
+			if sig == nil {
+				sig = []byte{1, 2, 3}
+			}
+			m := &consensustypes.MsgAddMessagesSignatures{Metadata: md, SignedMessages: []*consensustypes.ConsensusMessageSignature{
+				{Id: s.TxID, QueueTypeName: e.queue, Signature: sig, SignedByAddress: addrS}}}
+			b.msg = m
+			signed := false
+			if exists {
+				for _, sd := range rec.GetSignData() {
+					if isVal(s.Creator) && sd.ValAddress.Equals(sdk.ValAddress(e.actors[s.Creator])) {
+						signed = true
+					}
+				}
+			}
+			b.biz = isVal(s.Creator) && exists && ca == s.Creator && s.SigBy == s.Creator && !signed
+			b.run = func(ctx sdk.Context) error { _, err := e.cons.AddMessagesSignatures(ctx, m); return err }
+		case "consensus.MsgAddMessageGasEstimates":
+			ca := nm("EstimatedByAddress")
+			addrS := "0x0000000000000000000000000000000000000001"
+			if isVal(ca) {
+				addrS = keeper.EthAddrs[ca].String()
+			}
+			m := &consensustypes.MsgAddMessageGasEstimates{Metadata: md, Estimates: []*consensustypes.MsgAddMessageGasEstimates_GasEstimate{
+				{MsgId: s.TxID, QueueTypeName: e.queue, Value: 21000 + uint64(s.Creator+1), EstimatedByAddress: addrS}}}
+			b.msg = m
+			has := false
+			if exists {
+				for _, g := range rec.GetGasEstimates() {
+					if isVal(s.Creator) && g.ValAddress.Equals(sdk.ValAddress(e.actors[s.Creator])) {
+						has = true
+					}
+				}
+			}
+			b.biz = isVal(s.Creator) && exists && rec.GetRequireGasEstimation() && !has
+			b.run = func(ctx sdk.Context) error { _, err := e.cons.AddMessageEstimates(ctx, m); return err }
+		case "consensus.MsgAddEvidence":
+			proof, err := codectypes.NewAnyWithValue(&evmtypes.SmartContractExecutionErrorProof{ErrorMessage: fmt.Sprintf("seen-by-%d", s.Creator)})
+			if err != nil {
+				return nil, err
+			}
+			m := &consensustypes.MsgAddEvidence{Metadata: md, MessageID: s.TxID, QueueTypeName: e.queue, Proof: proof}
+			b.msg = m
+			b.biz = isVal(s.Creator) && exists
+			b.run = func(ctx sdk.Context) error { _, err := e.cons.AddEvidence(ctx, m); return err }
+		case "consensus.MsgSetPublicAccessData":
+			m := &consensustypes.MsgSetPublicAccessData{Metadata: md, MessageID: s.TxID, QueueTypeName: e.queue, Data: []byte(fmt.Sprintf("txhash-by-%d", s.Creator)), ValsetID: 1}
+			b.msg = m
+			b.biz = isVal(s.Creator) && exists
+			b.run = func(ctx sdk.Context) error { _, err := e.cons.SetPublicAccessData(ctx, m); return err }
+		case "consensus.MsgSetErrorData":
+			m := &consensustypes.MsgSetErrorData{Metadata: md, MessageID: s.TxID, QueueTypeName: e.queue, Data: []byte(fmt.Sprintf("error-by-%d", s.Creator))}
+			b.msg = m
+			b.biz = isVal(s.Creator) && exists
+			b.run = func(ctx sdk.Context) error { _, err := e.cons.SetErrorData(ctx, m); return err }
+		}
+	case "valset.MsgAddExternalChainInfoForValidator":
+		// the creator registers, as its own account on the chain, the address that validator
+		// Named["ChainInfos.Address"] has registered (itself: re-registration; -1: a fresh one)
+		ca := nm("ChainInfos.Address")
+		addrS, pub := "0x9999999999999999999999999999999999999999", []byte("fresh-pubkey-0000000")
+		if isVal(ca) {
+			addrS, pub = keeper.EthAddrs[ca].String(), keeper.EthAddrs[ca].Bytes()
+			if s.Erc == "lower" {
+				addrS = strings.ToLower(addrS)
+			}
+		}
+		m := &vtypes.MsgAddExternalChainInfoForValidator{Metadata: md, ChainInfos: []*vtypes.ExternalChainInfo{
+			{ChainType: "evm", ChainReferenceID: chain, Address: addrS, Pubkey: pub}}}
+		b.msg = m
+		// other validators' entries are compared by exact address string OR public key; the creator's
+		// own entries are skipped (a re-registration, whatever the spelling)
+		// (the harness's own reading of the valset store; note that a case variant of another
+		// validator's address with a different key is NOT a collision for the code: observation O2)
+		collide := false
+		var vk interface {
+			GetAllChainInfos(ctx context.Context) ([]*vtypes.ValidatorExternalAccounts, error)
+		} = e.in.ValsetKeeper
+		if all, err := vk.GetAllChainInfos(e.ctx); err == nil {
+			for _, ev := range all {
+				if s.Creator >= 0 && ev.Address.Equals(sdk.ValAddress(e.actors[s.Creator])) {
+					continue
+				}
+				for _, ci := range ev.ExternalChainInfo {
+					if ci.ChainType == "evm" && ci.ChainReferenceID == chain && (ci.Address == addrS || bytes.Equal(ci.Pubkey, pub)) {
+						collide = true
+					}
+				}
+			}
+		}
+		b.biz = isVal(s.Creator) && !collide
+		b.run = func(ctx sdk.Context) error { _, err := e.valset.AddExternalChainInfoForValidator(ctx, m); return err }
 	case "treasury.MsgUpsertRelayerFee":
 		v := nm("FeeSetting.ValAddress")
 		va := "not-an-address"
@@ -396,6 +514,8 @@ func isEnv2Kind(k string) bool {
 	return strings.HasPrefix(k, "tokenfactory.") || strings.HasPrefix(k, "paloma.")
 }
 
+func isEnv3Kind(k string) bool { return strings.HasPrefix(k, "consensus.") }
+
 type obs struct {
 	Ante, Ok bool
 	Touched  []int
@@ -476,6 +596,10 @@ func (e *env) deliver(b *built, s scen) obs {
 	}
 	cctx, write := e.ctx.CacheContext()
 	before := e.scan(cctx)
+	var dbgBefore []map[string]bool
+	if os.Getenv("VERIF_DEBUG") != "" {
+		dbgBefore = e.scanSets(cctx)
+	}
 	var err error
 	func() {
 		defer func() {
@@ -487,11 +611,29 @@ func (e *env) deliver(b *built, s scen) obs {
 	}()
 	if err != nil {
 		o.Err = "handler: " + err.Error()
+		if dbgBefore != nil {
+			fmt.Printf("DEBUGERR %s\n", o.Err)
+		}
 		return o
 	}
 	write()
 	o.Ok = true
 	after := e.scan(e.ctx)
+	if dbgBefore != nil {
+		dbgAfter := e.scanSets(e.ctx)
+		for i := range dbgAfter {
+			for k := range dbgAfter[i] {
+				if !dbgBefore[i][k] {
+					fmt.Printf("DEBUGDIFF actor %d gained %s\n", i, k)
+				}
+			}
+			for k := range dbgBefore[i] {
+				if !dbgAfter[i][k] {
+					fmt.Printf("DEBUGDIFF actor %d lost %s\n", i, k)
+				}
+			}
+		}
+	}
 	for i := 0; i < nActors; i++ {
 		if before[i] != after[i] {
 			o.Touched = append(o.Touched, i)
@@ -772,6 +914,44 @@ func genScen(r *rand.Rand, kind string, hostile bool) scen {
 		}
 	case "treasury.MsgUpsertRelayerFee":
 		named("FeeSetting.ValAddress", 45)
+	case "consensus.MsgAddMessagesSignatures", "consensus.MsgAddMessageGasEstimates", "consensus.MsgAddEvidence",
+		"consensus.MsgSetPublicAccessData", "consensus.MsgSetErrorData":
+		// mostly validators; the message: the first or second waiting one (ids resolved against the
+		// real queue by fixEnv3: 1 / 2 = the waiting messages, 3 = none), sometimes after an honest
+		// delivery of the same kind by the validator the message is assigned to / by another one
+		if !isVal(s.Creator) && r.Intn(4) != 0 {
+			s.Creator = r.Intn(nVals)
+			if len(s.Grants) == 1 && len(s.Signers) == 1 && s.Signers[0] >= idxPig0 && r.Intn(2) == 0 {
+				s.Grants[0][0] = s.Creator
+			} else {
+				s.Signers, s.Grants = []int{s.Creator}, nil
+			}
+		}
+		s.TxID = uint64(pick(r, 1, 1, 2, 2, 3))
+		switch kind {
+		case "consensus.MsgAddMessagesSignatures":
+			named("SignedByAddress", 70)
+			s.SigBy = pick(r, s.Creator, s.Creator, s.Named["SignedByAddress"], r.Intn(nVals))
+		case "consensus.MsgAddMessageGasEstimates":
+			named("EstimatedByAddress", 70)
+		}
+		if r.Intn(2) == 0 {
+			other := r.Intn(nVals)
+			pre := scen{Kind: kind, Creator: other, Signers: []int{other}, TxID: s.TxID, SigBy: other, Named: map[string]int{}}
+			if r.Intn(3) == 0 {
+				pre.Creator = -2 // resolved by fixEnv3: the validator the message is assigned to
+			}
+			s.Pre = []scen{pre}
+		}
+	case "valset.MsgAddExternalChainInfoForValidator":
+		if !isVal(s.Creator) && r.Intn(4) != 0 {
+			s.Creator = r.Intn(nVals)
+			s.Signers, s.Grants = []int{s.Creator}, nil
+		}
+		s.Named["ChainInfos.Address"] = pick(r, s.Creator, r.Intn(nVals), r.Intn(nVals), -1)
+		if r.Intn(5) == 0 {
+			s.Erc = "lower"
+		}
 	case "scheduler.MsgCreateJob":
 		// somebody else owns a job; the message's id is that id, a near-miss spelling of it, or a fresh one
 		base := []string{"vault-rebalance", "a.b_c-1"}[r.Intn(2)]
@@ -873,18 +1053,28 @@ func nearMiss(r *rand.Rand, base string) string {
 
 func runOne(t *testing.T, run *emit.Run, s scen, fromCorpus bool) {
 	var e *env
-	if isEnv2Kind(s.Kind) {
+	switch {
+	case isEnv3Kind(s.Kind):
+		e = setup3(t)
+	case isEnv2Kind(s.Kind):
 		e = setup2(t)
-	} else {
+	default:
 		e = setup(t)
 	}
 	// honest deliveries by other principals that set the scene (they own jobs, denoms, licences)
 	for _, p := range s.Pre {
+		if e.three {
+			p = fixEnv3(e, p)
+		}
 		pb, err := e.build(t, p)
 		if err != nil {
 			t.Fatalf("pre-step %+v cannot be built: %v", p, err)
 		}
 		if err := pb.run(e.ctx); err != nil {
+			if e.three { // e.g. a gas estimate for a message that needs none: the scene simply lacks it
+				run.Count("pre-step", "refused")
+				continue
+			}
 			t.Fatalf("pre-step %+v failed: %v", p, err)
 		}
 	}
@@ -1378,4 +1568,28 @@ func TestCorr(t *testing.T) {
 	}
 	_ = strings.TrimSpace
 	_ = codectypes.NewAnyWithValue
+}
+
+// msgID resolves the symbolic message id of a consensus scenario (1, 2: the two waiting relay
+// messages; anything else: no such message) against the real queue of the environment.
+func (e *env) msgID(sym uint64) uint64 {
+	if sym >= 1 && int(sym) <= len(e.queued) {
+		return e.queued[sym-1].ID
+	}
+	return 999
+}
+
+// fixEnv3 resolves the symbolic creator -2 of a pre-step: the validator the message is assigned to.
+func fixEnv3(e *env, x scen) scen {
+	if x.Creator == -2 {
+		x.Creator = 0
+		if x.TxID >= 1 && int(x.TxID) <= len(e.queued) && e.queued[x.TxID-1].Assignee >= 0 {
+			x.Creator = e.queued[x.TxID-1].Assignee
+		}
+		x.Signers, x.SigBy = []int{x.Creator}, x.Creator
+		if x.Named == nil {
+			x.Named = map[string]int{}
+		}
+	}
+	return x
 }
